@@ -45,6 +45,7 @@ Next ==
                (IF isc THEN One(e.out = want, l, "C14", <<"challenge differs from LE(SHA-256(protocol label o pending o label)) mod r", e.prog, e.k>>, <<"transcript", "challenge">>) ELSE <<>>) \o
                One(e.pending_len = Len(t2.p) /\ e.pending_sha = Sha256(t2.p), l, "DRIFT", <<"pending buffer differs from the specification's", e.op, e.pending_len, Len(t2.p)>>, <<"transcript", "pending">>) \o
                One(~Has(e, "arg_unchanged") \/ e.arg_unchanged, l, "C13", <<"transcript operation modified its argument", e.op>>, <<"transcript", "arg">>) \o
+               One(~Has(e, "tails_unchanged") \/ e.tails_unchanged, l, "C13", <<"transcript operation wrote into the spare capacity of a label or message slice", e.op>>, <<"transcript", "capacity">>) \o
                (IF final /\ e.run = 1
                 THEN One((stream = fin0.stream) = (e.out = fin0.chal), l, "C14",
                          <<"twin sequences: equal streams must give equal challenges, different streams different ones", e.twin, stream = fin0.stream>>, <<"transcript", "twin">>)
